@@ -457,6 +457,13 @@ var (
 		{motifEnq, motifDeqShort, {K: "ext", L: lref(-1), DurMs: 20}, {K: "adv", Ms: 20}, motifDeqLong, {K: "adv", Ms: 20}, motifDeqLong},
 		{motifEnq, motifEnq2, motifDeqShort, {K: "cancel", IDs: []string{"m0"}}, {K: "requeue", IDs: []string{"m0"}}, motifDeqLong, {K: "adv", Ms: 20}, motifDeqLong},
 	}
+	// one batch call presents an expired lease next to a live one (either order): the live one must be
+	// honoured, the expired one reported, and nothing else may move
+	motifsMixedBatch = [][]QOp{
+		{motifEnq, motifEnq2, {K: "deq", Route: "/a", N: 1, TTLMs: 20}, {K: "deq", Route: "/a", N: 1, TTLMs: 30000}, {K: "adv", Ms: 20}, {K: "nackb", Ls: []LRef{{K: -1}, {K: -2}}, DurMs: 10}, motifDeqLong, {K: "adv", Ms: 10}, motifDeqLong},
+		{motifEnq, motifEnq2, {K: "deq", Route: "/a", N: 1, TTLMs: 20}, {K: "deq", Route: "/a", N: 1, TTLMs: 30000}, {K: "adv", Ms: 20}, {K: "ackb", Ls: []LRef{{K: -2}, {K: -1}}}, motifDeqLong},
+		{motifEnq, motifEnq2, {K: "enq", Items: []QItem{{ID: "m2", Route: "/a", Target: "pull"}}}, {K: "deq", Route: "/a", N: 2, TTLMs: 20}, {K: "deq", Route: "/a", N: 1, TTLMs: 30000}, {K: "adv", Ms: 25}, {K: "deadb", Ls: []LRef{{K: -1}, {K: -2}, {K: -3}}, Reason: "x"}, motifDeqLong},
+	}
 	// an id is enqueued again after its earlier message was evicted or settled
 	motifsReuseID = [][]QOp{
 		{motifEnq, motifEnq2, {K: "enq", Items: []QItem{{ID: "m0", Route: "/a", Target: "pull", Payload: []byte{0x80, 0x80}}}}, motifDeqLong, {K: "ackb", Ls: []LRef{{K: -1}, {K: -2}, {K: -3}}}},
@@ -505,7 +512,7 @@ func profileC03() qProfile {
 	w["resume"] = 3
 	return qProfile{name: "C03", backends: []string{"memory", "sqlite"}, depths: []int{0, 0, 2, 5},
 		drops: []string{"reject", "drop_oldest"}, retention: false, maxOps: 40, weights: w,
-		padSingle: true, explicitTS: 5, blankIDs: true, deliveredOK: true, motifs: append(append([][]QOp(nil), motifsExpiry...), motifsReuseID...)}
+		padSingle: true, explicitTS: 5, blankIDs: true, deliveredOK: true, motifs: append(append(append([][]QOp(nil), motifsExpiry...), motifsReuseID...), motifsMixedBatch...)}
 }
 
 func profileC04() qProfile {
@@ -517,7 +524,7 @@ func profileC04() qProfile {
 	w["cancel"] = 3
 	return qProfile{name: "C04", backends: []string{"memory", "sqlite"}, depths: []int{0, 0, 0, 5},
 		drops: []string{"reject"}, retention: false, maxOps: 40, weights: w,
-		padSingle: true, explicitTS: 5, blankIDs: true, deliveredOK: true, motifs: motifsStale}
+		padSingle: true, explicitTS: 5, blankIDs: true, deliveredOK: true, motifs: append(append([][]QOp(nil), motifsStale...), motifsMixedBatch...)}
 }
 
 func profileC05() qProfile {
